@@ -240,8 +240,11 @@ Http::Stream::socketState()
             if (bytesExpected == HttpHdrRangeSpec::UnknownPosition)
                 return STREAM_NONE;
 
-            if (bytesSent == bytesExpected) // got everything
-                return STREAM_COMPLETE;
+            if (bytesSent == bytesExpected) { // got everything
+                // a chunked reply still owes the client its last-chunk, which is
+                // only written once the store reports the end of the body
+                return http->request->flags.chunkedReply ? STREAM_NONE : STREAM_COMPLETE;
+            }
 
             if (bytesSent > bytesExpected) // Error: Sent more than expected
                 return STREAM_UNPLANNED_COMPLETE;
